@@ -1,6 +1,7 @@
 import Lz4V.Util
 import Lz4V.Spec.XXH32
 import Lz4V.Spec.Block
+import Lz4V.Spec.Frame
 /-!
 # lz4v-spec — the independent specifications as an executable oracle
 
@@ -21,10 +22,52 @@ def specStep (f : List String) : Option String :=
   | ["SX", h] => some s!"{(Spec.XXH32.xxh32 (parseHex h).toList).toNat}"
   | _ => none
 
+def loadBlob (t : String) : IO (Array UInt8) := do
+  if t.startsWith "@" then
+    let body := (t.drop 1).toString
+    let (path, cut) := match body.splitOn "#" with
+      | [p, n] => (p, n.toNat?)
+      | _ => (body, none)
+    let b ← IO.FS.readBinFile path
+    let a : Array UInt8 := b.data
+    pure (match cut with | some n => a.extract 0 n | none => a)
+  else pure (parseData t)
+
+def b2n (b : Bool) : Nat := if b then 1 else 0
+
+def frameView (bytes : Array UInt8) (strict : Bool) : String :=
+  match Spec.Frame.decode bytes.toList strict with
+  | .error e => s!"err {repr e}"
+  | .ok r =>
+    let i := r.info
+    let sz := match i.contentSize with | some n => s!"{n}" | none => "-"
+    s!"ok ver={i.version} indep={b2n i.blockIndep} bc={b2n i.blockChecksum} cc={b2n i.contentChecksum} size={sz} bmax={i.blockMax} len={r.content.size} fnv={fnv r.content r.content.size} consumed={r.consumed}"
+
+def frameViewC (bytes : Array UInt8) (strict : Bool) : String :=
+  -- no frame at all (empty input or skippable frames only) is an empty stream, not a truncated frame
+  if Spec.Frame.onlySkippable (bytes.size + 1) bytes.toList then
+    s!"ok len=0 fnv={fnv #[] 0} consumed={bytes.size}" else
+  match Spec.Frame.decode bytes.toList strict with
+  | .error e => s!"err {repr e}"
+  | .ok r => s!"ok len={r.content.size} fnv={fnv r.content r.content.size} consumed={r.consumed}"
+
+def legacyView (bytes : Array UInt8) (withSizes : Bool) : String :=
+  match Spec.Frame.decodeLegacy bytes.toList with
+  | .error e => s!"err {repr e}"
+  | .ok (c, sizes) =>
+    let base := s!"ok legacy len={c.size} fnv={fnv c c.size}"
+    if withSizes then s!"{base} sizesok={b2n (Spec.Frame.legacySizesOk sizes)}" else base
+
 partial def loopIO (hin hout : IO.FS.Stream) : IO Unit := do
   let line ← hin.getLine
   if line.isEmpty then return ()
-  hout.putStrLn ((specStep (line.trimAscii.toString.splitOn " ")).getD "bad-op")
+  let f := line.trimAscii.toString.splitOn " "
+  match f with
+  | ["SF", strict, blob] => hout.putStrLn (frameView (← loadBlob blob) (strict == "1"))
+  | ["SFC", strict, blob] => hout.putStrLn (frameViewC (← loadBlob blob) (strict == "1"))
+  | ["SL", blob] => hout.putStrLn (legacyView (← loadBlob blob) false)
+  | ["SLS", blob] => hout.putStrLn (legacyView (← loadBlob blob) true)
+  | _ => hout.putStrLn ((specStep f).getD "bad-op")
   loopIO hin hout
 
 def main : IO Unit := do loopIO (← IO.getStdin) (← IO.getStdout)
